@@ -10,6 +10,10 @@ from .report import Run, main_wrapper
 def run_prop(prop, extra_parts=(), post=None):
     cfg = props.PROPS[prop]
     run = Run(prop, cfg["level"])
+    from .selftest import CASES, run_selftest
+
+    for msg in run_selftest():
+        run.harness_error("model-selftest", msg)
     corpus = runner.load_corpus(cfg.get("corpus", prop))
     cases = runner.select(corpus, run.tier)
     extra = cfg.get("extra_cases")
@@ -46,6 +50,7 @@ def run_prop(prop, extra_parts=(), post=None):
         "bounds": cfg["bounds"],
         "parameters": {k: v for k, v in defaults.items() if k not in ("builds",)},
         "functions_encoded": "whole pipeline output: the blueprint JSON returned by dsl_compiler.cli.compile_dsl_source is encoded entity by entity (vf/bp.py); reference = vf/gen.py interpreter on the generator's own AST",
+        "model_selftest_cases": len(CASES),
         "excluded_duplicates_of_known_defects": len(corpus.get("excluded_known_defect_duplicates", [])),
     }
     for part in extra_parts:
